@@ -38,7 +38,7 @@ PROPS = {
         projection="panic-vs-panic on every operation and accessor (res monad of the model)",
     ),
     "C04": dict(
-        level_text='FULL modulo the open dependency finding K04a: C04_main (process_chunks equal for any two chunkings of the same bytes that avoid the exact vte trigger k04a), exact characterisation of the vte bug (C04_vte_bug_exact, C04_refuted), io::Write = process.',
+        level_text="FULL (after repairing defect K04a, fix 5a439e4): C04_all (Props/C04.v; Pend, Chunking, VteChunk) — for every parser satisfying the invariant parser_ok (which every parser reached through the API satisfies: C04_reachable_ok, C04_ok_step) and any two chunkings cs1, cs2 of the same byte string, process_chunks p cs1 = process_chunks p cs2: the whole resulting parser (screen, callback log, vte state, held-back bytes) or the same panic, with NO side condition on where the cuts fall; C04_unsplit (any chunking equals the unsplit run); C04_write / C04_flush (io::Write is process, reports the whole buffer, flush is the identity). The dependency defect stays modelled faithfully and is still refuted for the vte model alone (C04_vte_refuted: the bug-faithful advance loses the A of e-acute A e-acute cut after byte 1; C04_vte_bug_exact: exact trigger k04a), and C04_process_shields_vte proves that the repaired Parser::process never hands vte a chunk on which the trigger fires (k04a false at every call); C04_witness_repaired: the old witness now gives the unsplit result; C04_partial_not_empty records that vte's partial buffer can still be non-empty (harmlessly) although the repair comment says otherwise.",
         families=[("chunk", 2500, 80000)],
         projection="vte action stream (Vte.advance) and screen + event log under different chunkings",
     ),
